@@ -3,6 +3,8 @@
 
   `vexpr <rpn> <raw screen…>`     value of the tree: selection vector and every per-experiment attribute of the view
   `vscreen <rpn> <raw screen…>`   `to_screen()` of the value: the new screen and its rows
+  `vderived <rpn> <raw screen…>`  the derived `ScreenBase` properties of the value (size, arity, plates, unique ids, counts, is_observed,
+                                  space sizes), `Plate.plate_id` (or its ValueError) and whether `single_treatment_effects` is None / an array / raises
   `uniq <col> <col> …`             `select_unique_zipped_numpy_arrays([col, col, …])`: the first-occurrence mask of the zipped rows
                                   (`err:ValueError` for no column or columns of different lengths)
 
@@ -12,9 +14,10 @@
 -/
 import Batchie.Model.ViewExpr
 import Batchie.Model.ScreenIO
+import Batchie.Model.ScreenApi
 
 namespace Batchie.ViewsIO
-open Batchie.Proto Batchie.Screen Batchie.Views Batchie.ScreenIO
+open Batchie.Proto Batchie.Screen Batchie.Views Batchie.ScreenIO Batchie.ScreenApi
 
 def parseRpn : List String → List ViewExpr → Option ViewExpr
   | [], [e] => some e
@@ -42,7 +45,22 @@ def showViewRows (r : Rows) : String :=
     ++ "|obs=" ++ showList toString "," r.obs ++ "|mask=" ++ showList showBool "," r.mask
     ++ "|tids=" ++ showList showIds ";" r.tids ++ "|sids=" ++ showIds r.sids ++ "|pids=" ++ showIds r.pids
 
+def showViewDerived (d : Derived) : String :=
+  s!"size={d.size}|arity={d.arity}|np={d.nPlates}|up={showIds d.uniquePlateIds}|us={showIds d.uniqueSampleIds}|ut={showIds d.uniqueTreatments}" ++
+  s!"|nus={d.nUniqueSamples}|nut={d.nUniqueTreatments}|obs={showBool d.isObserved}|sss={d.sampleSpaceSize}|tss={d.treatmentSpaceSize}"
+
 def handle : List String → Option String
+  | "vderived" :: rpn :: rest => do
+      let r ← parseRaw? rest
+      let e ← parseRpn (if rpn == "-" then [] else rpn.splitOn "+") []
+      match mk? r with
+      | .error err => pure ("parent-" ++ showErr err)
+      | .ok s => match eval s e with
+        | .error err => pure (showErr err)
+        | .ok v =>
+          let pid := match viewPlateId s v.sel with | .ok i => toString i | .error err => showErr err
+          let ste := match viewSte s v.sel with | .error err => showErr err | .ok none => "none" | .ok (some _) => "arr"
+          pure ("ok " ++ showViewDerived (viewDerived s v.sel) ++ "|pid=" ++ pid ++ "|ste=" ++ ste)
   | "uniq" :: cols => do
       let cs ← cols.mapM parseIntList?
       match selectUnique cs with
